@@ -47,3 +47,18 @@ theorem C17_explicit_functions_take_no_defaults :
   ⟨⟨_, rfl⟩, ⟨_, rfl⟩, ⟨_, rfl⟩, ⟨_, rfl⟩, ⟨_, rfl⟩, ⟨_, rfl⟩, ⟨_, rfl⟩, ⟨_, rfl⟩⟩
 
 end Hl7.C17
+
+namespace Hl7.C17
+open Hl7 Hl7.Py Hl7.G
+
+/-- **C17 (a stated version is never replaced by the default one).** When MSH-12 states a version for which there are no tables, `parse_message`
+    raises `UnsupportedVersion` — under every setting of the process-wide defaults, in particular whatever the default version is
+    (the seeded change C17-j turned the unknown version into "no version given", i.e. the default). -/
+theorem C17_unsupported_version (tables : List Tables) (d : Defaults) (text : Str) (strict fg : Bool)
+    (ec : EC) (st : Option Str) (v : Str)
+    (h : Msg.getMessageInfo (lstrip text) = .ok (ec, st, some v))
+    (hv : tables.find? (·.version == String.ofList v) = none) :
+    Msg.parseMessage tables d text strict fg = .error .UnsupportedVersion := by
+  unfold Msg.parseMessage
+  simp only [h, hv, bind, Except.bind, throw, throwThe, MonadExceptOf.throw]
+end Hl7.C17
